@@ -203,3 +203,27 @@ Proof.
   unfold c03_check_valid. intros H E NM. apply andb_true_iff in H as [CK V]. rewrite E, orb_false_r in V.
   apply c03_oracle_sound_none; [apply c03_validb_spec; exact V|exact NM|exact CK].
 Qed.
+
+(* ---------- audit round: Get at revision 0 when nothing above the reported revision is stored; a refused stream ---------- *)
+Theorem get_model_current V cur k : wf_store V -> alpha k -> (forall x, In x V -> vr_rev x <= cur) -> cur < two64 ->
+  get_model (raw_of V) cur k 0 =
+  match find_key k (snapshot V cur) with
+  | Some (v, r) => GetResp (N.max cur r) (Some (v, r))
+  | None => GetResp cur None
+  end.
+Proof.
+  intros WF Ak LE HC. rewrite (get_model_single V cur k 0 WF Ak ltac:(unfold two64; lia)).
+  cbn [N.eqb]. rewrite (snapshot_ge V cur max_u64 LE ltac:(unfold max_u64, two64 in *; lia)). reflexivity.
+Qed.
+
+Lemma interleaving_nil {A} (out : list A) : interleaving [] out -> out = [].
+Proof.
+  intros H. inversion H as [ls F|pre x l post o H1 E]; [reflexivity|]. destruct pre; discriminate.
+Qed.
+
+Theorem stream_refused s fv parts cur lo hi rv out : floor_check fv (eff rv cur) = FErr ->
+  stream_outcome (stream_model s fv parts cur lo hi rv) out -> out = [term_msg (eff rv cur) true].
+Proof.
+  intros FL SO. unfold stream_model in SO. fold (eff rv cur) in SO. unfold scan in SO. rewrite FL in SO.
+  cbn [stream_outcome] in SO. destruct SO as (data & IL & ->). apply interleaving_nil in IL. subst data. reflexivity.
+Qed.
